@@ -250,7 +250,9 @@ def same_out(a, b):
             return False
         if np.array_equal(x, y, equal_nan=True):          # identical, including identical non-finite entries
             continue
-        if not np.all(np.abs(x - y) <= 1e-9 * max(float(np.nanmax(np.abs(y), initial=0.0)), 1e-300)):
+        # rel 1e-9 of the largest entry, with an absolute floor of 1e-14: the weights of these cases are O(1), and a
+        # difference of 1e-17 between two images whose entries are tails of that size is the same image
+        if not np.all(np.abs(x - y) <= 1e-9 * max(float(np.nanmax(np.abs(y), initial=0.0)), 1e-300) + 1e-14):
             return False
     return True
 
